@@ -50,7 +50,7 @@ pub fn run(args: &Args, rec: &mut Recorder) {
     rec.rule = "evaluation = one file (document x encoding x padding) loaded with load() and compared by model equality with load_from_string() of the decoded text; Latin-1 files (bytes 0x80-0xFF that are not valid UTF-8) must load as the text whose code points are the bytes; arbitrary byte strings must not make load() panic. distinct_nontrivial = distinct byte contents by hash".into();
     rec.assumptions.push("the first character of every document is ASCII (as the format requires); padding = trailing blanks/newlines so that the byte length covers every residue mod 4 the encoding permits".into());
     let g = Grammar::load_default();
-    let n_docs: u64 = if args.thorough { 50_000 } else { 1_500 };
+    let n_docs: u64 = if args.thorough { 50_000 } else { 5_000 };
     let scratch = crate::c03::scratch_dir(args);
     run_cases(args, rec, n_docs, crate::util::reset_budget, |rng, case, rec| {
         let mut cfg = crate::c01::gen_cfg_wide(rng, false);
